@@ -1,8 +1,10 @@
 (* Character-level model of how an operation string travels through Python source text:
 
-     client.py  _generate_operation_str_assign :  gql([Constant(l + "\n") for l in op.splitlines()])
+     client.py  _generate_operation_str_assign :  gql([Constant(l + "\n") for l in op.split("\n")])
      ast.unparse                                :  repr of every constant, written back to back
      utils.format_multiline_strings             :  regex search + convert_to_multiline_string
+                                                   (since 0f971a2: the adjacent literals are evaluated and
+                                                   re-emitted escaped; old text replacement as fall-back)
      CPython                                    :  evaluation of the resulting literal(s)
 
    Strings are byte lists (UTF-8); bytes >= 0x80 stand for printable non-ASCII characters, which
@@ -126,26 +128,36 @@ Definition find_match (l : chars) : option (chars * chars) :=
       end
   end.
 
-(* re.search("'.*'", text): from the first quote to the last one (needs two) *)
-Fixpoint split_last_quote (l : chars) : option (chars * chars) :=
+(* re.search of a quote of either kind, anything, a quote of either kind, in the rest of the line:
+   from the first quote character to the last one (needs two) *)
+Definition isq (c : ascii) : bool := ceq c SQ || ceq c DQ.
+
+Fixpoint upto_q (l : chars) : option (chars * chars) :=
   match l with
   | [] => None
-  | c :: r => match split_last_quote r with
+  | x :: r => if isq x then Some ([x], r)
+              else match upto_q r with Some (a, b) => Some (x :: a, b) | None => None end
+  end.
+
+Fixpoint split_last_q (l : chars) : option (chars * chars) :=
+  match l with
+  | [] => None
+  | c :: r => match split_last_q r with
               | Some (a, b) => Some (c :: a, b)
-              | None => if ceq c SQ then Some ([c], r) else None
+              | None => if isq c then Some ([c], r) else None
               end
   end.
 
 Definition quoted_span (t : chars) : option chars :=
-  match upto SQ t with
+  match upto_q t with
   | None => None
-  | Some (_, r) => match split_last_quote r with
-                   | Some (a, _) => Some (SQ :: a)
+  | Some (a, r) => match split_last_q r with
+                   | Some (b, _) => Some (last a SQ :: b)
                    | None => None
                    end
   end.
 
-(* ---- convert_to_multiline_string ---- *)
+(* ---- convert_to_multiline_string: helpers and the old text replacement (now the fall-back) ---- *)
 Fixpoint unescape_nl (l : chars) : chars :=
   match l with
   | [] => []
@@ -180,8 +192,7 @@ Definition DQ3 : chars := [DQ; DQ; DQ].
 Definition ends_with_nl (l : chars) : bool :=
   match rev l with c :: _ => ceq c NL | [] => false end.
 
-Definition convert (src : chars) (var_indent offset : nat) : chars :=
-  let joined := drop_quotes (unescape_nl src) in
+Definition finish (joined : chars) (var_indent offset : nat) : chars :=
   let joined := if ends_with_nl joined then joined ++ DQ3 else joined ++ NL :: DQ3 in
   DQ3 ++ NL :: indent_text (spaces (var_indent + offset)) joined.
 
@@ -202,28 +213,6 @@ Fixpoint replace_all (fuel : nat) (src old new : chars) : chars :=
                 | c :: r => c :: replace_all f r old new
                 end
   end.
-
-(* ---- format_multiline_strings on one line ---- *)
-Definition leading_ws (l : chars) : nat := List.length (take_while is_ws l).
-
-Fixpoint format_iter (fuel : nat) (rest cur : chars) (offset : nat) : chars :=
-  match fuel with
-  | O => cur
-  | S f =>
-      match find_match rest with
-      | None => cur
-      | Some (t, rest') =>
-          match quoted_span t with
-          | Some span =>
-              format_iter f rest'
-                (replace_all (S (List.length cur)) cur span (convert span (leading_ws t) offset)) offset
-          | None => format_iter f rest' cur offset
-          end
-      end
-  end.
-
-Definition format_line (line : chars) (offset : nat) : chars :=
-  format_iter (S (List.length line)) line line offset.
 
 (* ---- CPython: value of a sequence of adjacent string literals ---- *)
 Inductive ev := EvOk (v rest : chars) | EvSyntax | EvUnsupported.
@@ -390,6 +379,7 @@ Fixpoint eval_literals (fuel : nat) (seen paren : bool) (l : chars) : ev :=
   | S f =>
       let l := skip_blanks (S (List.length l)) paren l in
       let one := if is_prefix DQ3 l then Some (eval_triple (S (List.length l)) (skipn 3 l))
+                 else if is_prefix [SQ; SQ; SQ] l then Some EvUnsupported
                  else match l with
                       | c :: r => if ceq c SQ || ceq c DQ then Some (eval_short (S (List.length l)) c r) else None
                       | [] => None
@@ -403,6 +393,98 @@ Fixpoint eval_literals (fuel : nat) (seen paren : bool) (l : chars) : ev :=
       end
   end.
 
+(* ---- ast.literal_eval of the span, _escape_multiline_string_line, convert_to_multiline_string ---- *)
+Inductive lev := LOk (v : chars) | LFail | LUnsupported.
+
+Definition is_prefix_letter (c : ascii) : bool := has c (s2l "rRuUbBfF").
+
+(* SyntaxError / ValueError -> LFail (the caller falls back); string prefixes and \N{..} are outside the model *)
+Definition literal_eval (s : chars) : lev :=
+  let s := drop_while (fun c => ceq c SP || (code c =? 9)) s in
+  match eval_literals (S (List.length s)) false false s with
+  | EvOk v [] => LOk v
+  | EvOk v (c :: _) => if ceq c "#" then LOk v else if is_prefix_letter c then LUnsupported else LFail
+  | EvSyntax => LFail
+  | EvUnsupported => LUnsupported
+  end.
+
+(* one character of str.encode("unicode_escape") where the character is not printable or is a backslash *)
+Definition esc_char (c : ascii) : chars :=
+  let n := code c in
+  if ceq c BS then [BS; BS]
+  else if n =? 9 then [BS; "t"]
+  else if n =? 10 then [BS; "n"]
+  else if n =? 13 then [BS; "r"]
+  else if (n <? 32) || (n =? 127) then [BS; "x"; hexdigit (n / 16); hexdigit (n mod 16)]
+  else [c].
+
+(* _escape_multiline_string_line: the characters escaped, then every run of three double quotes
+   replaced by three escaped ones, left to right (escapes never contain a double quote, so the runs
+   are the runs of the line itself) *)
+Fixpoint esc3 (l : chars) : chars :=
+  match l with
+  | [] => []
+  | c :: r =>
+      match r with
+      | d :: e :: r' => if ceq c DQ && ceq d DQ && ceq e DQ
+                        then [BS; DQ; BS; DQ; BS; DQ] ++ esc3 r'
+                        else esc_char c ++ esc3 r
+      | _ => esc_char c ++ esc3 r
+      end
+  end.
+
+(* str.split("\n") *)
+Fixpoint split_nl (l : chars) : list chars :=
+  match l with
+  | [] => [[]]
+  | c :: r => if ceq c NL then [] :: split_nl r
+              else match split_nl r with
+                   | x :: xs => (c :: x) :: xs
+                   | [] => [[c]]
+                   end
+  end.
+
+(* "\n".join *)
+Fixpoint join_nl (ls : list chars) : chars :=
+  match ls with
+  | [] => []
+  | [x] => x
+  | x :: r => x ++ NL :: join_nl r
+  end.
+
+Definition convert (src : chars) (var_indent offset : nat) : option chars :=
+  match literal_eval src with
+  | LOk v => Some (finish (join_nl (map esc3 (split_nl v))) var_indent offset)
+  | LFail => Some (finish (drop_quotes (unescape_nl src)) var_indent offset)
+  | LUnsupported => None
+  end.
+
+(* ---- format_multiline_strings on one line ---- *)
+Definition leading_ws (l : chars) : nat := List.length (take_while is_ws l).
+
+(* None: a span outside the model (string prefix, named escape).  [rest] is the source from the
+   start of the current match to the end of the line: indentation and span are taken from it *)
+Fixpoint format_iter (fuel : nat) (rest cur : chars) (offset : nat) : option chars :=
+  match fuel with
+  | O => Some cur
+  | S f =>
+      match find_match rest with
+      | None => Some cur
+      | Some (_, rest') =>
+          match quoted_span rest with
+          | Some span =>
+              match convert span (leading_ws rest) offset with
+              | Some new => format_iter f rest' (replace_all (S (List.length cur)) cur span new) offset
+              | None => None
+              end
+          | None => format_iter f rest' cur offset
+          end
+      end
+  end.
+
+Definition format_line (line : chars) (offset : nat) : option chars :=
+  format_iter (S (List.length line)) line line offset.
+
 (* the string the literals following [pre] evaluate to, and what follows them; format_line never
    alters [pre] when it contains no single quote *)
 Definition eval_stmt (pre : chars) (paren : bool) (text : chars) : ev :=
@@ -411,7 +493,17 @@ Definition eval_stmt (pre : chars) (paren : bool) (text : chars) : ev :=
   else EvSyntax.
 
 Definition embed (pre suf : chars) (paren : bool) (offset : nat) (lines : list chars) : ev :=
-  eval_stmt pre paren (format_line (stmt pre suf lines) offset).
+  match format_line (stmt pre suf lines) offset with
+  | Some out => eval_stmt pre paren out
+  | None => EvUnsupported
+  end.
+
+(* did the rewriter fire, and only once?  (0 = statement left as it is, 1 = one match, 2 = more) *)
+Definition matches (pre suf : chars) (lines : list chars) : nat :=
+  match find_match (stmt pre suf lines) with
+  | None => 0
+  | Some (_, rest') => match find_match rest' with None => 1 | Some _ => 2 end
+  end.
 
 (* what the operation string is: the lines joined, each with its newline *)
 Definition joined (lines : list chars) : chars := flat_map (fun l => l ++ [NL]) lines.
@@ -435,7 +527,7 @@ Definition run_multiline (e : sexp) : sexp :=
       end
   | L [A "format"; A line; off] =>
       match dNat off with
-      | Some off => sC (format_line (s2l line) off)
+      | Some off => sOpt sC (format_line (s2l line) off)
       | None => sErr "multiline: cannot decode arguments"
       end
   | L [A "eval"; A pre; par; A text] =>
@@ -447,8 +539,11 @@ Definition run_multiline (e : sexp) : sexp :=
       match dB par, dNat off, dAll dStr ls with
       | Some par, Some off, Some ls =>
           let src := stmt (s2l pre) (s2l suf) (map s2l ls) in
-          let out := format_line src off in
-          L [sC src; sC out; e_ev (eval_stmt (s2l pre) par out)]
+          match format_line src off with
+          | Some out => L [sC src; sC out; e_ev (eval_stmt (s2l pre) par out);
+                           sN (matches (s2l pre) (s2l suf) (map s2l ls))]
+          | None => L [sC src; A "unsupported"; e_ev EvUnsupported; sN 0]
+          end
       | _, _, _ => sErr "multiline: cannot decode arguments"
       end
   | _ => sErr "multiline: bad command"
